@@ -61,6 +61,11 @@ checks = {
    text=WHOLE + "decided for the lexer's single cursor: all panic sites of package lexer enumerated and discharged; Start read before any advance for every token construction (the two-character-operator defect found here is repaired by a fix: commit); identifier/number literals are input[entry:position] with the type derived from the same result; keyword lookup exact; after-newline flag set before every advance over a possible line break (tracked per byte value) and copied by every constructor; the skipper consumes only trivia and every dispatcher path consumes exactly its token's bytes; no feasible advance-free cycle and no feasible cycle at end of input; end of input is a fixed point and the EOF token is decided by position (defect found here, repaired by a fix: commit). Coverage-guided fuzzing samples byte strings; these rules cover every path of the scanners for every byte value.",
    ref="DESIGN.md §3 C10",
    note="Trusted: go/ssa; the abstract domain is path-insensitive at joins (sets are unioned) except in the cycle-feasibility rule, which is path-sensitive; conditions on non-cursor state are treated as both-ways feasible. Exact End positions and character (vs byte) columns are not decided."),
+ "C07": dict(
+   technique="byte-set abstract interpretation of the string/backtick scanners per source delimiter: every byte sink of the literal buffer is enumerated with the set of bytes it can write and judged against the printer's output delimiter (read from the printer); SSA shape rules for verbatim numbers and the strconv gate",
+   text=WHOLE + "decided is that emitted literals are well delimited and numbers verbatim, for every byte value and every path of the scanners: each sink is a preserved escape pair, a harmless constant, a verbatim source byte that cannot be the output delimiter, or a computed byte that cannot be delimiter/backslash/line terminator; number printers write exactly Token.Literal of the unchanged current token; strconv errors lead to nil. Two defects found by the sink rule are repaired by fix: commits (raw double quote in single-quoted strings; unescaped backtick); three decoded-escape sinks (\\xHH, \\uHHHH, \\u{...}) are genuine defects recorded as known findings because a correct repair changes what Token.Literal means. The VALUE an escape denotes is not decided.",
+   ref="DESIGN.md §3 C07, §4 F7",
+   note="Trusted: go/ssa; the abstract domain (sets per byte value, path-insensitive joins). Source programs with raw line breaks inside quotes are outside the quantifier (invalid JavaScript), so verbatim sinks are judged against the output delimiter only."),
 }
 na_pending = "rule set designed in DESIGN.md §3 but not yet armed in xjscheck; not claimed until it is silent on the unchanged tree and shown to fire on seeded variants"
 all_ids = ["C%02d" % i for i in range(1, 17)]
